@@ -13,11 +13,11 @@ def handle (j : Json) : Json :=
   | [Json.str "sanitizer", Json.str u] => ok (s2j (sanitizer u.toList))
   | [Json.str "is_atomic", Json.str u] => ok (Json.bool (isAtomic u.toList))
   | [Json.str "is_compound", Json.str u] => ok (Json.bool (isCompound u.toList))
-  | [Json.str "is_si", Json.str u] => ok (Json.bool (isSi u.toList))
+  | [Json.str "is_si", Json.str u] => ok (Json.bool (Scaling.isSi u.toList))
   | [Json.str "split", Json.str u] =>
     let (p, b, w) := split u.toList
     ok (Json.arr #[s2j p, s2j b, s2j w])
-  | [Json.str "scalable", Json.str a, Json.str b] => ok (Json.bool (scalable a.toList b.toList))
+  | [Json.str "scalable", Json.str a, Json.str b] => ok (Json.bool (Scaling.scalable a.toList b.toList))
   | [Json.str "scalable_list", Json.arr a, Json.arr b] =>
     let strs (x : Array Json) : Option (List Str) := x.toList.mapM fun j =>
       match j with
